@@ -95,6 +95,11 @@ CORPUS = [
     ('assert', "exists f.txt : contents ( num-lines == 1+1 && every line : line-num <= 2 )"),
     ('assert', "stdout -transformed-by ( grep x | filter line-num == 1 ) ! is-empty"),
     ('before-assert', "file r2.txt = -stdout-from % gen\n -transformed-by TT"),
+    ('assert', '`the exit code` exit-code == 0'), ('setup', "`a description\n over two lines`\n# a comment\n\nfile dsc.txt = 'x'"), ('cleanup', '`d` run % prog'),
+    ('cleanup', "file cl2.txt = -contents-of -rel-act f.txt -transformed-by replace 'l(i)' '\\1x'"),
+    ('cleanup', "file cl3.txt = -stdout-from % gen\n -transformed-by ( filter contents matches 'x' | replace -at line-num == 1 x y )"),
+    ('cleanup', 'run % prog -existing-file -rel-act f.txt'),
+    ('before-assert', "file ba2.txt = -contents-of -rel-act f.txt -transformed-by grep 'l(i)'"),
     # transformers applied to texts whose (only / last) line is not terminated
     ('assert', "contents nonl.txt : -transformed-by replace -preserve-new-lines 'l(i)' '\\1x' equals 'ixne'"),
     ('assert', "contents nonl.txt : -transformed-by replace 'l(i)' '\\1x' equals 'ixne'"),
@@ -108,7 +113,9 @@ REPL = ['(', ')', '=', ':', '!', '&&', '||', '|', "'", '"', '@[', ']@', '@[S]@',
         # characters str.isspace() accepts but the tokenizer does not treat as separators
         '\xa0', '\x0c', '\x0b', '\x1c', '\x85', '\u2028', '\u3000', 'a\xa0b',
         # integers: too large to display; evaluation errors whose exception arguments are not strings / are missing
-        '10**5000', '-10**5000', '2.0**10000', '{}[1]', "open('/non-existing')", 'next(iter(()))', '[][0]', '1<<(1<<20)<<0 if 0 else 1<<70', "int('9'*5000)"]
+        '10**5000', '-10**5000', '2.0**10000', '{}[1]', "open('/non-existing')", 'next(iter(()))', '[][0]', '1<<(1<<20)<<0 if 0 else 1<<70', "int('9'*5000)",
+        # values that depend on the directory structure: they can only be validated after the sandbox exists (or after the home directories are known)
+        '"@[EXACTLY_ACT]@("', '"@[EXACTLY_TMP]@["', '@[EXACTLY_HOME]@', '"@[EXACTLY_HOME]@["', '"@[P]@("', '@[EXACTLY_RESULT]@/x']
 
 
 def tokens_of(line):
@@ -239,7 +246,9 @@ def cases(tier):
 
 
 HEADERS = ['[nophase]', '[setup', 'setup]', '[ setup ]', '[SETUP]', '[setup] x', '[[setup]]', '[]', '[act][assert]']
-RAW = ['[assert]\n\xa0', '[assert]\n\x0c', '[setup]\ndef string A = 1\n\x0b', '[act]\n% atc\n[cleanup]\n \x1c', '[act]\nprog \xa0', '[act]\n\xa0\n', '[setup]\n\u2028', '[setup]\n\x85\n[act]\n',
+RAW = ['[assert]\n`desc`\n# comment', '[assert]\n`desc`\n\n# c\n\n#', '[assert]\n`desc`\n  ', '[assert]\n`desc`', '[assert]\n`desc', '[setup]\n`d`\n#x\n[act]\n% atc', '[assert]\n`desc`\n#\n',
+       '[assert]\n`a\nmulti-line\ndescription`\n# only a comment follows',
+       '[assert]\n\xa0', '[assert]\n\x0c', '[setup]\ndef string A = 1\n\x0b', '[act]\n% atc\n[cleanup]\n \x1c', '[act]\nprog \xa0', '[act]\n\xa0\n', '[setup]\n\u2028', '[setup]\n\x85\n[act]\n',
        '', '\n\n\n', '\x00\x01\x02', '﻿[act]\n% atc\n', '[act]\n' + 'x' * 100000, '\r\n[act]\r\n% atc\r\n', '[act]\n% atc\n[assert]\nexit-code == 0' + '\n' * 5000,
        '[setup]\n' + 'def string S%d = x\n' * 3, '#' * 1000, '[act]\n\\', '[setup]\nfile f = <<\n', '[setup]\nfile f = <<EOF', "[setup]\ndef string X = 'a\nb'\n"]
 
